@@ -84,7 +84,7 @@ def run_property(prop, tier):
             solver_s += cls["duration_s"]
             for o in cls["obligations"]:
                 obligations.append((h.name, o["where"], o["description"]))
-            st = results.get(h.full, {}).get("cbmc_stats", {})
+            st = (results.get(h.full) or {}).get("cbmc_stats") or {}
             per_harness.append({
                 "harness": h.full, "role": h.role, "functions": h.functions, "bounds": h.bounds,
                 "stubs": h.stubs, "assumes": h.assumes,
@@ -220,6 +220,12 @@ def main(argv):
     import fcntl
     lock = open(os.path.join(VERIF, ".work", f"lock-{a.property}"), "w")
     fcntl.flock(lock, fcntl.LOCK_EX)
-    if a.replay:
-        return do_replay(a.property, a.replay)
-    return run_property(a.property, a.tier)
+    try:
+        if a.replay:
+            return do_replay(a.property, a.replay)
+        return run_property(a.property, a.tier)
+    except Exception:  # noqa: BLE001  -- a defect of the machinery is never a verdict about the property
+        import traceback
+        traceback.print_exc()
+        log("INCONCLUSIVE: internal error of the checking machinery (see traceback); no verdict")
+        return 2
